@@ -37,10 +37,10 @@ def run(c):
     binary = c.go_build(HARNESS)
     try:
         if binary and drv:
-            rc, out = c.go_run(binary, [f"-n={c.n(400, 6000)}"], timeout=2400)
+            rc, out = c.go_run(binary, [f"-n={c.n(300, 6000)}"], timeout=2400)
             c.harness_ok(rc, out, "verif-c17 (step mode)")
             c.correspond(out, drv, label="")
-            rc, out = c.go_run(binary, ["-mode=crash", f"-n={c.n(8, 80)}"], timeout=2400)
+            rc, out = c.go_run(binary, ["-mode=crash", f"-n={c.n(6, 80)}"], timeout=2400)
             c.harness_ok(rc, out, "verif-c17 (kill mode)")
             c.correspond(out, drv, label="crash")
     finally:
@@ -79,11 +79,15 @@ META = {
              "transaction state, offsets, wait queue and acknowledgements after every op; the property itself is evaluated directly on the "
              "real engine in both modes (oracle signatures db-not-prefix, db-ahead-of-binlog, tx-not-prefix, acked-not-durable, acked-lost, "
              "failed-do-left-db-change, failed-do-left-binlog-record, restart-missing-events, view-not-prefix, restart-not-writable, "
-             "restart-failed, restart-failed-torn-tail). Defect found and fixed (fixes/C17-binlog-torn-tail.diff): a kill inside a large "
-             "binlog write(2) left a partial record at the end of the file and fsbinlog's writer then refused to reopen it, so the engine "
-             "stayed down; the model keeps the old behaviour as `stepOld` with a `decide` witness."),
-    "note": ("Partial: SQLite durability/atomic commit, fsync, the Go scheduler and fsbinlog's fsync-before-Commit contract are trusted, not proved; "
-             "kill instants are sampled (quick ~20 kills, thorough ~200). The apply() branch that skips bytes below the stored offset is not "
+             "restart-failed, restart-failed-torn-tail). Known finding restart-failed-torn-tail (no fix applied): a kill inside a "
+             "large binlog write(2) leaves a partial record at the end of the last file; fsbinlog's writer then refuses to reopen it "
+             "and a master engine does not come up until the file is cut by hand. The model reproduces this (crash with torn=true -> "
+             "open-error, field down; theorem torn_tail_restart_fails is the decide witness), so the restart theorems "
+             "(engine_up_partial, acked_present_after_restart_partial, restart_catches_up_partial) carry the hypothesis noTorn = "
+             "no crash left a partial record after the last complete event; the unapplied patch is kept as stepFixed."),
+    "note": ("Partial: restart is proved only for crashes without a torn binlog tail (with one the current code fails to restart: "
+             "known finding, oracle sig restart-failed-torn-tail; any other restart failure is sig restart-failed and a VIOLATION); SQLite durability/atomic commit, fsync, the Go scheduler and fsbinlog's fsync-before-Commit contract are trusted, not proved; "
+             "kill instants are sampled (quick ~15 kills, thorough ~200). The apply() branch that skips bytes below the stored offset is not "
              "modelled: the proved invariant tx.off <= dbOffset (also observed on the real engine after every op) makes its guard false. "
              "Snapshot meta and the ReadAndExit/CommitOnEachWrite/NoBinlog options are not modelled."),
     "design_ref": "DESIGN.md §6 C17",
